@@ -3,6 +3,7 @@
 package main
 
 import (
+	"context"
 	"fmt"
 	"net/url"
 	"strings"
@@ -124,6 +125,10 @@ func vfC11(w *vfWorld) {
 		for _, hh := range hosts {
 			snap(hh)
 		}
+	}
+	if w.redis != nil && t.Prob("c11.race", 300) {
+		vfC11Race(w, cs, cfg, reps, b, loginHost, snapshots, snap)
+		return
 	}
 	// ---- sign-out ----
 	soHost := pickHost()
@@ -274,4 +279,88 @@ func vfParseStart(w *vfWorld, resp *vfResp, user string) (*vfLogin, bool) {
 	}
 	lg.AuthReq, lg.Code = w.idp.Authorize(u, user)
 	return lg, true
+}
+
+// vfC11Race: the sign-out runs concurrently with 1-2 requests of the same (stale) session, every
+// Redis command, lock script and IdP call interleaved by the tape.
+func vfC11Race(w *vfWorld, cs *vfC11Case, cfg *vfCfg, reps []*vfReplica, b *vfBrowser, host string, snapshots []string, snap func(string)) {
+	t := w.tape
+	pp := cfg.ProxyPrefix
+	w.Sleep(cfg.CookieRefresh + 5*time.Second)
+	ck := vfCookieHeader(b.CookiesFor(cfg.Scheme, host, "/app/x"))
+	keys := vfTicketKeys(w, b, cfg)
+	n := 1 + t.Choice("c11.racers", 2)
+	resps := make([]*vfResp, n+1)
+	var tasks []*vfTask
+	for i := 0; i < n; i++ {
+		i := i
+		rep := reps[t.Choice("c11.rep", len(reps))]
+		tasks = append(tasks, &vfTask{id: fmt.Sprintf("T%d", i+1), rep: rep, fn: func(ctx context.Context) {
+			resps[i] = b.Do(rep, &vfReq{Method: "GET", Host: host, Target: "/app/x", CookieHdr: &ck, NoApply: true, Ctx: ctx})
+		}})
+	}
+	sorep := reps[t.Choice("c11.rep", len(reps))]
+	tasks = append(tasks, &vfTask{id: "SO", rep: sorep, fn: func(ctx context.Context) {
+		resps[n] = b.Do(sorep, &vfReq{Method: "GET", Host: host, Target: pp + "/sign_out?rd=%2Fbye", CookieHdr: &ck, NoApply: true, Ctx: ctx})
+	}})
+	mark := len(w.redis.Events())
+	sr := w.sched.Run(tasks, vfSchedOpts{Sleeps: []time.Duration{10 * time.Millisecond}, MaxSteps: 2000, MaxSim: 30 * time.Second})
+	if sr.Truncated {
+		w.sched.Drain(tasks)
+		w.truncated = true
+		w.violate("C11", "liveness", "race", "sign-out racing with %d requests did not finish", n)
+	}
+	cs.Steps = append(cs.Steps, fmt.Sprintf("race(sign-out || %d stale requests)", n))
+	w.nontriv = true
+	so := resps[n]
+	cs.SignOutStatus = so.Status
+	success := so.Status == 302 && so.Location() == "/bye"
+	if !success {
+		w.violate("C11", "signout-failed", "race", "fault-free sign-out (racing with requests) answered %d", so.Status)
+	}
+	// when did the sign-out's DEL take effect, relative to the racers' lock and store operations?
+	evs := w.redis.Events()[mark:]
+	delSeq := 0
+	for _, e := range evs {
+		if e.Task == "SO" && e.Name == "DEL" && e.Err == "" {
+			delSeq = e.Seq
+		}
+	}
+	for _, key := range keys {
+		if !w.redis.Exists(key) {
+			continue
+		}
+		// resurrected: which racer wrote it back, and had it taken the refresh lock before the delete?
+		kind := "stored-session-survives"
+		for _, e := range evs {
+			if e.Name == "SET" && !e.IsLock && e.Err == "" && e.Seq > delSeq && e.Task != "SO" {
+				lockSeq := 0
+				for _, l := range evs {
+					if l.Task == e.Task && l.IsLock && l.Err == "" && lockSeq == 0 {
+						lockSeq = l.Seq
+					}
+				}
+				if lockSeq != 0 && lockSeq < delSeq {
+					// finding F11: the refresher already held the lock and had re-loaded the session when
+					// the sign-out deleted it; its save writes the session back
+					kind = "inflight-refresh-under-lock-writes-back"
+				} else {
+					kind = "written-back-although-deleted-before-lock"
+				}
+			}
+		}
+		w.violate("C11", "session-resurrected-after-signout", kind, "after a successful sign-out the stored session %s exists again (sign-out DEL at #%d)", w.sym("rkey", key), delSeq)
+		// replay is then authenticated, too
+		for i, h := range snapshots {
+			hdr := h
+			r := b.Do(reps[0], &vfReq{Method: "GET", Host: host, Target: "/app/replay", NoJar: true, CookieHdr: &hdr})
+			if len(r.UpHits) > 0 {
+				w.violate("C11", "replay-after-signout-served", kind, "pre-sign-out cookie set #%d replayed after the racing sign-out was authenticated", i)
+			}
+		}
+	}
+	if w.redis != nil {
+		w.probe("c11:race-run")
+	}
+	w.distKey = strings.Join(cs.Steps, ";")
 }
